@@ -53,6 +53,7 @@ type c09Run struct {
 func newC09Run(p *Prog) *c09Run {
 	r := &c09Run{p: p}
 	m := NewMachine(p, nil)
+	m.StepLimit = 5000000 // exact documents with fields of several thousand bytes, parsed a byte at a time
 	installStringModels(m)
 	installFuncModels(m)
 	installUnicodeModels(m)
@@ -361,11 +362,11 @@ func checkC09(p *Prog, rp *Report) {
 	}
 
 	// ---- DECODE + ROUND on the full document --------------------------------------------
-	doc := "Name: hello\n" +
+	doc := "Name: hello citt\u00e0\n" +
 		"X-Wire-Name: renamed value\n" +
 		"Needed: here\n" +
 		"Hidden: must not be decoded\n" +
-		"Long-Text:\n first line\n second line\n" +
+		"Long-Text:\n first line \u00c5\n second line\n" +
 		"Count: -42\n" +
 		"Size: 3000000000\n" +
 		"Flag: yes\n" +
@@ -387,7 +388,7 @@ func checkC09(p *Prog, rp *Report) {
 			} else {
 				f1 := fieldsOf(r.st, full, s1, nil)
 				want := map[string]string{
-					"Name": `"hello"`, "Wire": `"renamed value"`, "Needed": `"here"`, "Hidden": `""`,
+					"Name": `"hello città"`, "Wire": `"renamed value"`, "Needed": `"here"`, "Hidden": `""`,
 					"Count": "i-42", "Size": "i3000000000", "Flag": "T",
 					"Words": `["alpha" "beta" "gamma"]`, "Items": `["one" "two words" "three"]`, "Nums": "[i1 i20 i-3]",
 				}
@@ -396,7 +397,7 @@ func checkC09(p *Prog, rp *Report) {
 						decP = append(decP, fmt.Sprintf("field %s decodes to %s, want %s", k, f1[k], w))
 					}
 				}
-				if l := f1["Long"]; l != `"first line\nsecond line\n"` && l != `"first line\nsecond line"` && l != `"\nfirst line\nsecond line\n"` && l != `"\nfirst line\nsecond line"` {
+				if l := f1["Long"]; l != `"first line Å\nsecond line\n"` && l != `"first line Å\nsecond line"` && l != `"\nfirst line Å\nsecond line\n"` && l != `"\nfirst line Å\nsecond line"` {
 					decP = append(decP, "the multi-line field decodes to "+l)
 				}
 				for _, k := range []string{"Ver", "Deps", "Arch", "Arches"} {
